@@ -76,6 +76,9 @@ def nests(rnd, n):
 
 def run(rep, tier, seed):
     core.build_harness()
+    # the stage machine itself: every stage hands over or diagnoses, diagnosed => not executed, it ends
+    from .. import tlcrun
+    rep.add_tlc(tlcrun.require_ok(tlcrun.run_tlc("Pipeline", workers=2, timeout=300), "Pipeline"))
     rnd = random.Random(seed)
     families = []
     maxlen = 3 if tier == "quick" else 4
@@ -183,8 +186,6 @@ def run(rep, tier, seed):
     rep.cov["exhaustive"] = False
     rep.sample({"text": "a: 1", "family": "special"})
     rep.sample({"text": mutate(rnd, progs_src[0])[:300], "family": "mutated-programs"})
-    rep.cov["states"] = 5
-    rep.cov["transitions"] = 6
     rep.assumptions.append("characters are covered by representatives of the predicates the scanner applies, not all scalars")
 
 
